@@ -340,7 +340,8 @@ func (c customAddr) String() string  { return c.s }
 func (fd *feeder) feedBytes(st *state, b []byte) {
 	in := string(b)
 	c := func(name string, f func()) { fd.call(st, name, in, f) }
-	lens := []int{0, 1, 3, 4, 5, 6, 8, 15, 16, 17, 20, 21}
+	lens := []int{0, 3, 4, 5, 8, 15, 16, 17, 20}
+	mlens := []int{0, 4, 5, 16}
 	for _, n := range lens {
 		if n > len(b) {
 			break
@@ -360,7 +361,7 @@ func (fd *feeder) feedBytes(st *state, b []byte) {
 		c("netutil.ValidateIP", func() { errStr(netutil.ValidateIP(ip)) })
 		c("netutil.CloneIPs", func() { _ = netutil.CloneIPs([]net.IP{ip, nil, {}}); _ = netutil.CloneIPs(nil) })
 		c("netutil.ValidateMAC", func() { errStr(netutil.ValidateMAC(net.HardwareAddr(ip))) })
-		for _, m := range lens {
+		for _, m := range mlens {
 			if m > len(b) {
 				break
 			}
